@@ -1108,21 +1108,27 @@ func genInterfaceWrapper(n *node, typ reflect.Type) func(*frame) reflect.Value {
 	// except the first define the methods to implement.
 	// As the field name was generated with a prefixed first character (in order to avoid
 	// collisions with method names), this first character is ignored in comparisons.
-	wrap := getWrapper(n, typ)
-	mn := wrap.NumField() - 1
-	names := make([]string, mn)
-	methods := make([]*node, mn)
-	indexes := make([][]int, mn)
-	for i := 0; i < mn; i++ {
-		names[i] = wrap.Field(i + 1).Name[1:]
-		methods[i], indexes[i] = n.typ.lookupMethod(names[i])
-		if methods[i] == nil && n.typ.cat != nilT {
-			// interpreted method not found, look for binary method, possibly embedded
-			_, indexes[i], _, _ = n.typ.lookupBinMethod(names[i])
+	wrapper := func(t *itype) (wrap reflect.Type, names []string, methods []*node, indexes [][]int) {
+		wrap = getWrapperType(n.interp, t, typ)
+		mn := wrap.NumField() - 1
+		names = make([]string, mn)
+		methods = make([]*node, mn)
+		indexes = make([][]int, mn)
+		for i := 0; i < mn; i++ {
+			names[i] = wrap.Field(i + 1).Name[1:]
+			methods[i], indexes[i] = t.lookupMethod(names[i])
+			if methods[i] == nil && t.cat != nilT {
+				// interpreted method not found, look for binary method, possibly embedded
+				_, indexes[i], _, _ = t.lookupBinMethod(names[i])
+			}
 		}
+		return
 	}
+	wrap0, names0, methods0, indexes0 := wrapper(n.typ)
+	dynamic := isInterfaceSrc(n.typ)
 
 	return func(f *frame) reflect.Value {
+		wrap, names, methods, indexes := wrap0, names0, methods0, indexes0
 		v := value(f)
 		if tc != structT && v.Type().Implements(typ) {
 			return v
@@ -1145,6 +1151,11 @@ func genInterfaceWrapper(n *node, typ reflect.Type) func(*frame) reflect.Value {
 				return reflect.New(typ).Elem()
 			}
 			n2 = vi.node
+		}
+		if dynamic && n2 != nil && n2.typ != nil && !isInterfaceSrc(n2.typ) {
+			// The operand is of interface type: the wrapper (possibly a composed one) and
+			// the methods are those of the dynamic type of the value it holds.
+			wrap, names, methods, indexes = wrapper(n2.typ)
 		}
 		cv := valueInterfaceValue(v) // the value held by the interface, of dynamic type n2.typ
 		if n2 == nil && cv.IsValid() && cv.CanAddr() {
